@@ -1301,6 +1301,16 @@ impl RaftLogManager {
         let mut pop_count = 0;
         for item in &mut self.logs {
             if end_index < item.get_log_range_end_index() {
+                if end_index < item.log_range.start_index {
+                    //wholly above the cut: close the actor and remove the file
+                    if let Some(log_actor) = &item.log_actor {
+                        log_actor.do_send(RaftLogCmd::Close);
+                    }
+                    let path = Self::get_log_path(&self.base_path, &item.log_range);
+                    std::fs::remove_file(path).ok();
+                    pop_count += 1;
+                    continue;
+                }
                 let log_actor = if let Some(log_actor) = item.log_actor.as_ref() {
                     log_actor.clone()
                 } else {
@@ -1309,10 +1319,6 @@ impl RaftLogManager {
                     log_actor_addr
                 };
                 log_actor.do_send(RaftLogRequest::StripLogToIndex(end_index));
-                let is_remove = end_index < item.log_range.start_index;
-                if is_remove {
-                    pop_count += 1;
-                }
             } else {
                 continue;
             }
@@ -1321,6 +1327,9 @@ impl RaftLogManager {
             let log_count = self.logs.len() - pop_count;
             self.logs = self.logs[..log_count].to_vec();
             if let Some(last_log) = self.logs.last_mut() {
+                //the new last log is appended to again, the next rollover recomputes the count
+                last_log.log_range.is_close = false;
+                last_log.log_range.record_count = 0;
                 let log_actor = if let Some(log_actor) = &last_log.log_actor {
                     log_actor.clone()
                 } else {
@@ -1331,6 +1340,9 @@ impl RaftLogManager {
                 };
                 self.current_log_actor = Some(log_actor);
             }
+            let save_logs: Vec<LogRange> = self.logs.iter().map(|e| e.log_range.clone()).collect();
+            let index_request = RaftIndexRequest::SaveLogs(save_logs);
+            self.index_manager.as_ref().unwrap().do_send(index_request);
         }
         if let Some(tx) = tx {
             let _ = tx.send(Ok(WriteLogResult::Success));
